@@ -37,6 +37,13 @@ def configs(tier):
                 out.append(("match", kind, n1, n2, presorted))
     if tier == "quick":
         out.append(("match", "int", 3, 3, False))
+    # mixed integer widths / signedness (cells bounded to their dtype's range; NumPy's
+    # value-based promotion for 1- and 2-byte integers is exact)
+    for d1, d2 in (("u1", "i1"), ("i1", "u1"), ("u2", "i1")):
+        for n1, n2 in ((1, 1), (2, 1), (2, 2)) if tier == "quick" else ((1, 1), (2, 1), (2, 2), (3, 2)):
+            out.append(("match", d1 + ":" + d2, n1, n2, False))
+    for n in usz[1:]:
+        out.append(("rem_dup", "int:u1", n, 0, False))
     out.append(("match_scalar", "int", 1, 1, False))
     out.append(("match_multi", "int", 2, 2, False))
     for kind in ("int", "real"):
@@ -45,6 +52,12 @@ def configs(tier):
             out.append(("unique", kind, n, 0, True))
             out.append(("rem_dup", kind, n, 0, False))
     return out
+
+
+def _dt_cells(cx, dt, name, n):
+    import numpy as np
+    info = np.iinfo(dt)
+    return [cx.int("%s%d" % (name, i), int(info.min), int(info.max)) for i in range(n)]
 
 
 def _cells(cx, kind, name, n):
@@ -67,14 +80,21 @@ def harness(cx, cfg):
     what, kind, n1, n2, flag = cfg
     m = _mod()
     if what in ("match", "match_scalar", "match_multi"):
-        a = _cells(cx, kind, "a", n1)
-        b = _cells(cx, kind, "b", n2)
+        if ":" in kind:
+            d1, d2 = kind.split(":")
+            a = _dt_cells(cx, d1, "a", n1)
+            b = _dt_cells(cx, d2, "b", n2)
+        else:
+            a = _cells(cx, kind, "a", n1)
+            b = _cells(cx, kind, "b", n2)
         distinct = sym_and(*[a[i] != a[j] for i in range(n1) for j in range(i + 1, n1)]) if n1 > 1 else True
-        if flag:   # presorted: precondition is a strictly increasing first array
+        if flag:   # presorted: precondition is a sorted first array (repeats must still be rejected)
             for i in range(n1 - 1):
-                cx.assume(a[i] < a[i + 1])
+                cx.assume(a[i] <= a[i + 1])
         if what == "match_scalar":
             A, B = a[0], b[0]
+        elif ":" in kind:
+            A, B = symnp.array(a, dtype=d1), symnp.array(b, dtype=d2)
         else:
             A, B = symnp.array(a), symnp.array(b)
         try:
@@ -130,9 +150,16 @@ def harness(cx, cfg):
                      sym_or(*[a[i] == a[k] for k in idx]) if idx else False)
         return
     if what == "rem_dup":
+        fdt = None
+        if ":" in kind:
+            kind, fdt = kind.split(":")
         a = _cells(cx, kind, "a", n1)
-        f = [cx.int("f%d" % i) for i in range(n1)]
-        r = m.rem_dup(symnp.array(a), symnp.array(f))
+        if fdt:
+            f = _dt_cells(cx, fdt, "f", n1)
+            r = m.rem_dup(symnp.array(a), symnp.array(f, dtype=fdt))
+        else:
+            f = [cx.int("f%d" % i) for i in range(n1)]
+            r = m.rem_dup(symnp.array(a), symnp.array(f))
         if isinstance(r, int):
             idx = [r]
         else:
@@ -208,8 +235,18 @@ def replay(cand):
     what, kind, n1, n2, flag = cand["cfg"]
     mdl = cand["model"]
 
+    fdt = None
+    dts = {}
+    if ":" in kind and what == "rem_dup":
+        kind, fdt = kind.split(":")
+    elif ":" in kind:
+        dts["a"], dts["b"] = kind.split(":")
+        kind = "int"
+
     def arr(name, n):
         vals = [mdl["%s%d" % (name, i)] for i in range(n)]
+        if name in dts:
+            return np.array([int(v) for v in vals], dtype=dts[name])
         if kind == "real":
             return np.array([model_float(v) for v in vals], dtype="f8")
         if kind == "str":
@@ -253,7 +290,7 @@ def replay(cand):
                             % (a.tolist(), flag, r.tolist(), vals, sorted(set(a.tolist())))}
         return {"reproduced": False, "what": "agrees", "key": None}
     if what == "rem_dup":
-        f = np.array([int(mdl["f%d" % i]) for i in range(n1)], dtype="i8")
+        f = np.array([int(mdl["f%d" % i]) for i in range(n1)], dtype=fdt or "i8")
         r = nu.rem_dup(a, f)
         idx = [r] if isinstance(r, int) else r.tolist()
         good = sorted(a[idx].tolist()) == sorted(set(a.tolist())) and idx == sorted(idx)
